@@ -1,5 +1,5 @@
 import RedisEmu.Exec
-import RedisEmu.Proofs.GoArith
+import RedisEmu.Proofs.GoArithBits
 import Mathlib.Tactic.SplitIfs
 /-
   C18 — bitmap commands. Theorems about `RedisEmu.Bits` (family `bits` of the correspondence run
@@ -386,12 +386,11 @@ theorem bitfield_saturation_as_coded (v : BitVec 64) (bits : Nat) (h1 : 1 ≤ bi
         if v.toInt < 0 then 0 else (2 : Int) ^ bits - 1) :=
   ⟨fun h => go_saturateValue_signed v bits h1 h, fun h => go_saturateValue_unsigned v bits h1 h⟩
 
-/-- what the translator delivered on this run (a function that disappears or leaves the translatable
-    subset makes the translator fail, and this list change) -/
-theorem go_arith_translated :
-    Go.translated = ["isSignedSumOverflow", "isUnsignedOverflow", "saturateValue", "signExtend", "isPowerOfTwo",
-      "hashToIndex", "sipRound", "getRangeClamp", "lrangeClamp", "bitcountClamp", "bitcountMasks", "ltrimClamp", "addIntOverflowGuard", "fieldAddIntOverflowGuard",
-      "setbitOffsetGuard", "setrangeSizeGuard"] := rfl
+/-- what the translator delivered on this run for the bitmap commands (each property pins its own part of the list, so
+    that a function of another property that leaves the translatable subset does not touch this one) -/
+theorem go_arith_translated_bits :
+    ["isSignedSumOverflow", "isUnsignedOverflow", "saturateValue", "signExtend", "bitcountClamp", "bitcountMasks",
+      "setbitOffsetGuard"].all (Go.translated.contains ·) = true := by decide
 
 /-- `signExtend(value, bits)` translated from the Go source on this run: on a field value of width 1..64 it returns the
     two's-complement reading of the field — the model's `toSigned`, which `GET i<w>` and the signed `INCRBY` / `SET`
@@ -404,10 +403,6 @@ theorem bitfield_sign_extend_as_coded (w : Nat) (hw1 : 1 ≤ w) (hw : w ≤ 64) 
 theorem bitfield_sign_extend_examples :
     (Go.signExtend 255#64 8#64).toInt = -1 ∧ (Go.signExtend 127#64 8#64).toInt = 127 ∧
     (Go.signExtend 0x8000000000000000#64 64#64).toInt = -9223372036854775808 := by decide
-
-/-- `isPowerOfTwo` as translated: true exactly on the powers of two (the table sizes of the dictionary) -/
-theorem is_power_of_two_as_coded (n : BitVec 32) : Go.isPowerOfTwo n = true ↔ ∃ k, n.toNat = 2 ^ k :=
-  go_isPowerOfTwo n
 
 /-- The range arithmetic of BITCOUNT translated from `fnBitCount` on this run (negative indexes from the end, a start
     beyond the end and an end before the start count nothing, the end clamped onto the last unit): it leaves early
